@@ -243,7 +243,27 @@ func runC20(c *Ctx) error {
 				c.Violate("stopping a relay-only router did not return within 25 s", "stop-hangs", map[string]any{"cfg": label, "which": name})
 			}
 		}
-		stopWithin(first, "first")
+		// the router that stops first keeps receiving frames from its still running neighbour while it stops
+		streamDone := make(chan struct{})
+		var streams sync.WaitGroup
+		for g := 0; g < 6; g++ {
+			streams.Add(1)
+			go func() {
+				defer streams.Done()
+				firstIP := first.Identity().IP
+				for {
+					select {
+					case <-streamDone:
+						return
+					default:
+					}
+					_, _, _ = second.Router().PingPong.Send(firstIP, true, 0)
+				}
+			}()
+		}
+		stopWithin(first, "first (under inbound traffic)")
+		close(streamDone)
+		streams.Wait()
 		stopWithin(second, "second")
 		c.Eval()
 		after := goroutines()
